@@ -232,6 +232,11 @@ async def lifecycle(loop, case, subset, record):
             r = Router(defaults=RouterDefaults(converter=BasicConverter, retry_policy=lambda retry_number=1: timedelta(seconds=0.2)))
             w.conn = c  # scripted_actor only uses world.log / counters
             w.scripted_actor(r, "act", queue=f"q{lab}")
+            # an actor that works with every connection alive in the process while it runs (nested operations on its own
+            # AND on the other connection: none of them is announced to anybody's subscribers)
+            from rv.actors import register_cross_actor
+
+            register_cross_actor(r, "cross", f"q{lab}", conns, w.log)
             routers[lab] = r
             workers[lab] = Worker(routers=[r], tasks_limit=3, graceful_shutdown_time=4.0, handle_signals=[__import__("signal").SIGUSR1] if lab == order[0] else [], _connection=c)
         w.conn = conns["w1"]
@@ -259,6 +264,7 @@ async def lifecycle(loop, case, subset, record):
             # jobs: ok with result, failing with retry, and one raw message handled by hand
             await op("job1", Job("act", id_=f"{lab}-a", queue=q, args={"script": {"do": "ok", "ret": {"v": 1}}}, args_id=f"args-{lab}-a", result_id=f"res-{lab}-a", store_result=True, _connection=c).enqueue())
             await op("job2", Job("act", id_=f"{lab}-b", queue=q, args={"script": {"by_attempt": [{"do": "raise"}, {"do": "ok"}]}}, args_id=f"args-{lab}-b", result_id=f"res-{lab}-b", retries=1, store_result=True, _connection=c).enqueue())
+            await op("job4", Job("cross", id_=f"{lab}-d", queue=q, store_result=False, _connection=c).enqueue())
             await op("job3", Job("act", id_=f"{lab}-c", queue=q, args={"script": {"do": "raise", "exc": "KeyError"}}, args_id=f"args-{lab}-c", result_id=f"res-{lab}-c", store_result=False, _connection=c).enqueue())
             P = mb.PARAMETERS_CLASS
             await op("queue_declare2", mb.queue_declare("manual" + lab))
@@ -296,7 +302,7 @@ async def lifecycle(loop, case, subset, record):
             await op("consume-expired", asyncio.wait_for(cons2.consume(), 2.5 if kind == "redis" else 0.6))
             await cons2.finish()
         # workers
-        want_final = {f"{lab}-{x}" for lab in conns for x in "abc"}
+        want_final = {f"{lab}-{x}" for lab in conns for x in "abcd"}
 
         def all_final():
             return want_final <= {e["id"] for e in w.log.events if e.get("k") == "ret" and e.get("depth") == 0 and e.get("op") in ("ack", "nack")} and not w.inflight
